@@ -5,12 +5,21 @@ pub static mut TICK: u64 = 0;
 #[used]
 #[link_section = ".init_array"]
 static GATE: extern "C" fn() = gate;
+#[no_mangle]
+pub static mut SIGCNT: u64 = 0;
+extern "C" fn on_usr1(_s: i32) {
+    unsafe {
+        SIGCNT += 1;
+    }
+}
 extern "C" fn gate() {
     extern "C" {
         fn getenv(n: *const u8) -> *const u8;
         fn read(fd: i32, b: *mut u8, n: usize) -> isize;
+        fn signal(sig: i32, h: extern "C" fn(i32)) -> usize;
     }
     unsafe {
+        signal(10, on_usr1); // SIGUSR1: counted, otherwise harmless
         if !getenv(b"PUPPET_WAIT\0".as_ptr()).is_null() {
             let mut b = 0u8;
             read(0, &mut b, 1);
